@@ -30,6 +30,7 @@ LOOP_HEADS = {
     ("getIcosahedronFaces", 1): ["while", "out[pos]"],
     ("getIcosahedronFaces", 2): ["for", "i < vertexCount"],
     ("cellToChildren", 0): ["for", "IterCellsChildren iter", "iter.h"],
+    ("_h3ToFaceIjk", 0): ["while", "_adjustOverageClassII"],
 }
 
 
@@ -664,12 +665,15 @@ PROPS["C19"] = dict(
     level="other",
     explanation="output-shape clauses by an enforced (recursive) contract with loop contracts: the maxFaceCount slots hold distinct face numbers "
                 "0..19 followed by -1 padding, every vertex of the cell is examined (5/6) and the face of every examined vertex is reported; "
-                "maxFaceCount == 5 for a pentagon else 2. Exhaustive over the finite set of all 192 pentagons (symbolic base cell x "
-                "resolution, real function with all real callees): success with five distinct faces.",
+                "maxFaceCount == 5 for a pentagon else 2. Pentagon clause by COMPLETE ENUMERATION: one job per pentagon (12 base cells x 16 "
+                "resolutions = all 192 pentagons that exist), the real getIcosahedronFaces with all its real callees (integer face-overage "
+                "arithmetic only, no floating point on this path) on the concrete index: success with five distinct faces 0..19, every "
+                "safety obligation of the executed path discharged.",
     trusted_base=["_adjustOverageClassII / _adjustPentVertOverage produce a face in 0..19 (assumed frame contracts in the shape proof; the "
                   "pentagon enumeration uses the real ones)"], assumptions=[],
     not_decided=["the reported faces are exactly those the cell's interior meets (geometry)", "a valid hexagon always succeeds with one or two faces"],
-    level_text="Unbounded proof of the shape clauses; complete enumeration of the pentagon clause; the geometric meaning is not decided.",
+    level_text="Unbounded proof of the shape clauses for all 2^64 inputs; the pentagon clause is decided for every one of the 192 pentagons "
+               "(finite domain, exhaustively enumerated, no bound); the geometric meaning and the hexagon success clause are not decided.",
     level_note="Category 'other': partial.")
 J(name="c19.getIcosahedronFaces", props=["C19", "C12", "C18"], harness="c19.c", entry="h_getIcosahedronFaces", rec=True,
   enforce=["getIcosahedronFaces"],
@@ -730,6 +734,18 @@ J(name="c12.radsToDegs", props=["C12", "C18"], harness="c12.c", entry="h_radsToD
 J(name="c12.gridDiskUnsafe", props=["C12", "C18", "C05"], harness="c12.c", entry="h_gridDiskUnsafe", enforce=["gridDiskUnsafe"],
   replace=["gridDiskDistancesUnsafe/gridDiskDistancesUnsafe_ghost"])
 
+J(name="c12.h3ToFaceIjk.hexbc", props=["C12", "C18"], harness="c12.c", entry="h_h3ToFaceIjk", enforce=["_h3ToFaceIjk/_h3ToFaceIjk_hexbc"],
+  unwind=17, timeout=1800)
+J(name="c12.h3ToFaceIjk.pentbc", props=["C12", "C18"], harness="c12.c", entry="h_h3ToFaceIjk", enforce=["_h3ToFaceIjk/_h3ToFaceIjk_pentbc"],
+  unwind=17, timeout=1800, checks=["--no-standard-checks", "--bounds-check", "--pointer-check"], tier="never",  # parked: DFCC reports the callees' own
+  # parameters/locals (h, r, i) as not assignable once the secondary-overage loop carries a contract (spurious frame failures, 250 s)
+  loops=[dict(fn="_h3ToFaceIjk", loop=0, locals=["fijk", "res"], assigns="*fijk",
+              inv="fijk->face >= 0 && fijk->face <= 19 && res == __CPROVER_loop_entry(res) && fijk == __CPROVER_loop_entry(fijk)")])
+J(name="c12.cellToLatLng", props=["C12", "C18", "C03"], harness="c12.c", entry="h_cellToLatLng", enforce=["cellToLatLng"],
+  replace=["_h3ToFaceIjk/_h3ToFaceIjk_safe", "_faceIjkToGeo/_faceIjkToGeo_frame"])
+J(name="c12.cellToBoundary", props=["C12", "C18"], harness="c12.c", entry="h_cellToBoundary", enforce=["cellToBoundary"],
+  replace=["_h3ToFaceIjk/_h3ToFaceIjk_safe", "isPentagon", "_faceIjkToCellBoundary/_faceIjkToCellBoundary_frame",
+           "_faceIjkPentToCellBoundary/_faceIjkPentToCellBoundary_frame"])
 J(name="c13.cellToChildPos.badres", props=["C13", "C12"], harness="c13.c", entry="h_cellToChildPos", enforce=["cellToChildPos/cellToChildPos_badres"],
   unwind=17, replay=dict(fn="cellToChildPos", args=["child", "parentRes"]))
 J(name="c13.childPosToCell.badres", props=["C13", "C12"], harness="c13.c", entry="h_childPosToCell", enforce=["childPosToCell/childPosToCell_badres"],
@@ -751,6 +767,11 @@ J(name="c17.iterStepPolygonCompact", props=["C17", "C15"], harness="c17b.c", ent
               inv="0 <= res && res <= 15 && res == S_RES(cell) && res <= __CPROVER_loop_entry(res)", dec="res")])
 
 J(name="c19.pentagons.enum", props=["C19"], harness="c19.c", entry="h_pentagon_faces_enum", unwind=20, timeout=1800, tier="never")  # concrete enumeration still > 30 min
+
+for pp in range(12):
+    for rr in range(16):
+        J(name="c19.pent.%d.%d" % (pp, rr), props=["C19"], harness="c19.c", entry="h_pentagon_faces_one", defs=["PENT_P=%d" % pp, "PENT_R=%d" % rr],
+          unwind=20, timeout=600, tier="quick", replay=dict(fn="pentagonFaces", args=["=%d" % pp, "=%d" % rr]))
 
 J(name="c05.gridDisksUnsafe.b3", props=["C05"], harness="c05.c", entry="h_gridDisksUnsafe", enforce=["gridDisksUnsafe/gridDisksUnsafe_b3"],
   replace=["gridDiskUnsafe/gridDiskUnsafe_w", "maxGridDiskSize/maxGridDiskSize_ghost"], unwind=5,
